@@ -334,3 +334,47 @@ theorem orderWith_canonical (t1 t2 : Table) (roots1 roots2 : List Nat) (key1 key
   · simp only [assemble, hs.cache]
 
 end Tongo.Boc.Order
+
+namespace Tongo.Boc.Order
+open Tongo Tongo.Boc
+
+/-! ### an instance of `serialize_canonical`: the leaf of `exDup` shared instead of duplicated -/
+
+def exShared : Table := #[⟨0, 0, [true], [1, 1]⟩, ⟨0, 0, [false], []⟩]
+
+theorem exShared_valid : ValidLayout exShared [0] := by
+  refine ⟨⟨?_, ?_, ⟨#[1, 0], rfl, ?_⟩⟩, ?_⟩
+  · intro i hi
+    have : i = 0 ∨ i = 1 := by simp [exShared] at hi; omega
+    rcases this with rfl | rfl <;>
+      exact ⟨by simp [exShared], by simp [exShared], by simp [exShared], by simp [exShared], by simp [exShared],
+        by simp [exShared, tyPruned]⟩
+  · intro r hr; simp at hr; subst hr; decide
+  · intro i hi
+    have : i = 0 ∨ i = 1 := by simp [exShared] at hi; omega
+    rcases this with rfl | rfl <;> exact ⟨by simp [maxDepth], by simp [exShared]⟩
+  · intro i hi h
+    have : i = 0 ∨ i = 1 := by simp [exShared] at hi; omega
+    rcases this with rfl | rfl <;> exact absurd rfl h
+
+theorem exShared_key : KeyInjOn exShared (fun i => some i) := by
+  refine ⟨fun _ _ => rfl, ?_⟩
+  intro i j hi hj
+  have hi' : i = 0 ∨ i = 1 := by simp [exShared] at hi; omega
+  have hj' : j = 0 ∨ j = 1 := by simp [exShared] at hj; omega
+  rcases hi' with rfl | rfl <;> rcases hj' with rfl | rfl <;> simp [exShared, Table.unfold]
+
+/-- rows of the two presentations that unfold to the same tree have the same key -/
+theorem exDup_exShared_keys : ∀ i1 i2, i1 < exDup.size → i2 < exShared.size →
+    Table.unfold exDup (exDup.size + 1) i1 = Table.unfold exShared (exShared.size + 1) i2 →
+    (fun i => some (if i = 2 then 1 else i)) i1 = (fun i => some i) i2 := by
+  intro i1 i2 h1 h2
+  have h1' : i1 = 0 ∨ i1 = 1 ∨ i1 = 2 := by simp [exDup] at h1; omega
+  have h2' : i2 = 0 ∨ i2 = 1 := by simp [exShared] at h2; omega
+  rcases h1' with rfl | rfl | rfl <;> rcases h2' with rfl | rfl <;> simp [exDup, exShared, Table.unfold]
+
+theorem exDup_exShared_roots :
+    [0].map (Table.unfold exDup (exDup.size + 1)) = [0].map (Table.unfold exShared (exShared.size + 1)) := by
+  simp [exDup, exShared, Table.unfold]
+
+end Tongo.Boc.Order
